@@ -232,6 +232,19 @@ func (s *State) poolNewField(p Ptr) *FuncV {
 }
 
 func stubPoolGet(s *State, a []Value) Value {
+	v := stubPoolGet1(s, a)
+	seen := map[int]bool{}
+	s.reachableFrom(v, seen)
+	if s.owned == nil {
+		s.owned = map[int]bool{}
+	}
+	for id := range seen {
+		s.owned[id] = true
+	}
+	return v
+}
+
+func stubPoolGet1(s *State, a []Value) Value {
 	p := a[0].(Ptr)
 	free := s.pools[p.Obj]
 	mode := "lifo"
@@ -300,6 +313,11 @@ func stubPoolPut(s *State, a []Value) Value {
 		}
 	}
 	s.pools[p.Obj] = append(s.pools[p.Obj][:len(s.pools[p.Obj]):len(s.pools[p.Obj])], v)
+	seen := map[int]bool{}
+	s.reachableFrom(v, seen)
+	for id := range seen {
+		delete(s.owned, id)
+	}
 	s.poison(v)
 	return nil
 }
@@ -364,11 +382,16 @@ func stubRegexpMatchString(s *State, a []Value) Value {
 	case string:
 		return re.MatchString(x)
 	case *AbsStr:
-		// uninterpreted predicate per regex over string identities
+		// uninterpreted predicate per regex over string identities, with
+		// ground axioms for every interned (literal) string
 		name := "re:" + re.String()
 		t := s.W.Pool.UF(name, SortBool, x.Id)
-		s.W.Job.regexUFs[name] = re
-		return t
+		if _, seen := s.W.Job.regexUFs[name]; !seen {
+			s.W.Job.regexUFs[name] = re
+		}
+		s.regexAxioms(name, re)
+		s.reApps = append(s.reApps[:len(s.reApps):len(s.reApps)], reApp{re: re, id: x.Id, t: t})
+		return s.retBool(t)
 	case *SymStr:
 		if str, ok := s.concreteStr(x); ok {
 			return re.MatchString(str)
@@ -768,4 +791,28 @@ func stubContains(s *State, a []Value) Value {
 		s.abort("strings.Contains on symbolic strings")
 	}
 	return strings.Contains(x, y)
+}
+
+type reApp struct {
+	re *regexp.Regexp
+	id *Term
+	t  *Term
+}
+
+// regexAxioms assumes re(c) = host result for every interned string c.
+func (s *State) regexAxioms(name string, re *regexp.Regexp) {
+	p := s.W.Pool
+	for str, id := range s.W.Job.strIDs {
+		key := fmt.Sprintf("ax:%s:%d", name, id)
+		if _, done := s.holes[key]; done {
+			continue
+		}
+		s.holes[key] = true
+		app := p.UF(name, SortBool, p.IntConst(id))
+		if re.MatchString(str) {
+			s.assume(app)
+		} else {
+			s.assume(p.Not(app))
+		}
+	}
 }
